@@ -156,7 +156,13 @@ def applyOperator (n : OpNode) (prev : Option Tok) (out : List Expr) : Except Er
     | [] => .ok [.pair n.op .empty]
   else .ok out
 
-/-- `expressionParser::operatorIsLeftUnary` for the (still ambiguous) operator `o` -/
+def tokIsOp : Tok → Bool
+  | .op _ => true
+  | _ => false
+
+/-- `expressionParser::operatorIsLeftUnary` for the (still ambiguous) operator `o`;
+    `prevCastEnd`: the previous token is the `)` of a cast (`prevToken == castEndToken`; it is also
+    what `prevPairIsCast` computes from the operator stack) -/
 def isLeftUnary (o : Op) (prev next : Option Tok) (prevCastEnd : Bool := false) : Except Err Bool :=
   let chainable : Ty := (T.increment.1 ||| T.decrement.1 ||| T.parentheses.1,
                          T.increment.2 ||| T.decrement.2 ||| T.parentheses.2)
@@ -173,11 +179,11 @@ def isLeftUnary (o : Op) (prev next : Option Tok) (prevCastEnd : Bool := false) 
       let prevIsOp := has prevTy T.unary || has prevTy T.binary
       if prevIsOp && (has prevTy T.leftUnary || (has prevTy T.binary && !has prevTy T.unary)) then .ok true
       else if prevIsOp && !onlyUnary then .ok false
+      else if operandThenBinary && !onlyUnary && !tokIsOp p then .ok false
+      else if operandThenBinary && !onlyUnary && has prevTy T.pairEnd && !prevCastEnd then .ok false
       else
         let nextIsOp := has nx.opType T.unary || has nx.opType T.binary
-        if prevIsOp != nextIsOp then
-          if operandThenUnaryIsBinary then .ok (onlyUnary && prevIsOp)
-          else .ok (if onlyUnary then prevIsOp else nextIsOp)
+        if prevIsOp != nextIsOp then .ok (if onlyUnary then prevIsOp else nextIsOp)
         else if !prevIsOp then
           if onlyUnary then .error .ambiguous else .ok false
         else if has prevTy chainable && has nx.opType chainable then .error .ambiguous
@@ -196,21 +202,32 @@ def resolve (o : Op) (prev next : Option Tok) (prevCastEnd : Bool := false) : Ex
 
 def leftAssoc (prec : Nat) : Bool := assoc.getD prec 0 == 0
 
+/-- `applyPrevOp` / `foundQuestionMark` of `applyFasterOperators` for the incoming operator `o` and the
+    pending operator `q`, in the three shapes the loop has had (`ternaryMode`) -/
+def popDecision (o q : Op) : Bool × Bool :=
+  let byPrec := o.prec > q.prec || (o.prec == q.prec && leftAssoc q.prec)
+  if ternaryMode == 0 then (byPrec, false)
+  else if ternaryMode == 1 then
+    if o.prec == q.prec then
+      if has o.ty T.questionMark then (false, false)
+      else if has o.ty T.colon then (byPrec, has q.ty T.questionMark)
+      else (byPrec, false)
+    else (byPrec, false)
+  else
+    if has o.ty T.colon then (true, has q.ty T.questionMark)
+    else if has q.ty T.questionMark then (false, false)
+    else if o.prec == q.prec && has o.ty T.questionMark then (false, false)
+    else (byPrec, false)
+
 /-- the `while` loop of `expressionParser::applyFasterOperators` for the incoming operator `o` -/
 def popFaster (o : Op) (prev : Option Tok) : List Expr → List OpNode → Except Err (List Expr × List OpNode)
   | out, [] => .ok (out, [])
   | out, n :: ops =>
     if has n.op.ty T.pairStart then .ok (out, n :: ops)
-    else if ternaryNestsRight && has o.ty T.questionMark && n.op.prec == o.prec then .ok (out, n :: ops)
-    else if ternaryNestsRight && !has o.ty T.colon && has n.op.ty T.questionMark then .ok (out, n :: ops)
-    else if ternaryNestsRight && has o.ty T.colon then
+    else if (popDecision o n.op).1 then
       match applyOperator n prev out with
       | .error x => .error x
-      | .ok out' => if has n.op.ty T.questionMark then .ok (out', ops) else popFaster o prev out' ops
-    else if o.prec > n.op.prec || (o.prec == n.op.prec && leftAssoc n.op.prec) then
-      match applyOperator n prev out with
-      | .error x => .error x
-      | .ok out' => popFaster o prev out' ops
+      | .ok out' => if (popDecision o n.op).2 then .ok (out', ops) else popFaster o prev out' ops
     else .ok (out, n :: ops)
 
 /-- `expressionParser::extractArgs` on the content of a pair -/
